@@ -49,7 +49,7 @@ def band_marks(ck, kind, dn, th, sg, u):
         ck.mark(tag + "th>pi")
 
 
-def monitor_exp(ck, kind, dn, x64, monitor="exp_ld", mp_budget=0, rng=None):
+def monitor_exp(ck, kind, dn, x64, monitor="exp_ld", mp_budget=0, rng=None, observed=None):
     """x64: (N, d) float64 rows (already representable in dtype or not: they are rounded to the
     dtype first and the *rounded* values are what the oracle sees)."""
     dtype = lie.DT[dn]
@@ -57,9 +57,12 @@ def monitor_exp(ck, kind, dn, x64, monitor="exp_ld", mp_budget=0, rng=None):
     G = L.ALG2GRP[kind]
     x = lie.lt(kind, x64, dtype)
     entry = f"{kind}.Exp"
-    okc, X = ck.call(monitor, f"{kind}/{dn}", entry, lambda: x.Exp(), witness={"n": int(x.shape[0])})
-    if not okc:
-        return
+    if observed is not None:        # an Exp call made by some other workload (globally attached observer)
+        X = lie.lt(G, observed, dtype)
+    else:
+        okc, X = ck.call(monitor, f"{kind}/{dn}", entry, lambda: x.Exp(), witness={"n": int(x.shape[0])})
+        if not okc:
+            return
     xin = x.tensor().detach().double().numpy()
     out = X.tensor().detach().double().numpy()
     ck.check(X.ltype is lie.LT[G] and X.dtype == dtype and tuple(X.shape) == (xin.shape[0], L.GRP[G]),
@@ -209,5 +212,18 @@ def run(ck):
                            tag + "both-in-(u,sqrt(u))", tag + "th>pi")
             else:
                 ck.require(tag + "th<=u", tag + "th>u", tag + "th>pi")
+    # ---- realistic driver: Exp calls made inside optimisers, IMU integration, splines (attached observer)
+    from .. import attach
+
+    def on_exp(kind, x, X):
+        dn = "f64" if x.dtype == torch.float64 else "f32" if x.dtype == torch.float32 else None
+        if dn is not None and torch.isfinite(x).all():
+            monitor_exp(ck, kind, dn, x.double().numpy(), monitor="exp_attached", observed=X)
+    with attach.observe(on_exp=on_exp) as st:
+        for dt in (torch.float64, torch.float32):
+            attach.realistic_workloads(rng, dt, steps=10 if thorough else 6)
+    ck.note_add("attached_exp_calls", st["exp_calls"])
+    ck.note_add("attached_skipped", st["skipped"])
+    ck.floor("exp_attached", 50)
     ck.floor("exp_ld", 1000)
     ck.floor("exp_mp", 20)
